@@ -334,6 +334,9 @@ def signature(case, obs, msg):
     import re
     sig = {"msg": (msg or "")[:50]}
     f = case["fault"]
+    if "raw ValueError: read length must be non-negative" in (msg or ""):
+        # a size line that parses to a negative number reaches http.client's read(-n) / int(): the call site of C13-F1, however the '-' got there
+        return {"kind": "negative-chunk-size"}
     if "(after DecodeError)" in (msg or ""):
         return {"kind": "connection-kept-after-decode-error"}
     m = re.search(r"a chunk-size line is malformed \((b'.*')\) but reading ended normally", msg or "")
